@@ -399,6 +399,18 @@ Theorem C09_owner_unique : forall P T flag flag' i j s,
 Proof. exact owner_unique. Qed.
 Print Assumptions C09_owner_unique.
 
+(* backends written as mopidy.backend.Backend subclasses (inherited has_* capability methods):
+   routing follows the providers that are set, e.g. a library-only backend (no playback) IS
+   routed library requests *)
+Theorem C09_provider_presence_is_routed : forall P T i ss pv answer s,
+  mk_backends P = Ok T -> nth_error P i = Some (backend_of ss pv answer) -> In s ss ->
+  (tget (t_lib T) s = Some i <-> pv_library pv <> None) /\
+  (tget (t_browse T) s = Some i <-> exists r, pv_library pv = Some (Some r)) /\
+  (tget (t_playlists T) s = Some i <-> pv_playlists pv = true) /\
+  (tget (t_playback T) s = Some i <-> pv_playback pv = true).
+Proof. exact provider_presence_is_routed. Qed.
+Print Assumptions C09_provider_presence_is_routed.
+
 Theorem C09_core_schemes_exact : forall P mx log l,
   run P mx OCoreSchemes = (log, Ok (VSchemes l)) ->
   log = [] /\ NoDup l /\
